@@ -233,7 +233,7 @@ def _enum_grid(tier):
     cases = []
     for nu in range(1, 7):
         for nv in range(1, 7):
-            for mode in ("scalar", "vector", "default", "vector-after-read", "bumps-after-read", "regenerate-default", "regenerate-vector", "vector-spread"):
+            for mode in ("scalar", "vector", "default", "vector-after-read", "bumps-after-read", "regenerate-default", "regenerate-vector", "vector-spread", "scalar-after-read"):
                 cases.append({"nu": nu, "nv": nv, "mode": mode, "sx": 2.0 + nu, "sy": 3.0 + nv})
     return cases
 
@@ -266,7 +266,13 @@ def check_grid(case, ctx):
         ctx.check(any(p[2] == 3.0 for row in pts for p in row), "bumps-no-effect", "bumps() did not raise any grid point")
     ctx.nt(nu != nv, "non-square")
     ctx.nt(mode.startswith("vector"), "per-point-weights")
-    if mode == "scalar":
+    if mode == "scalar-after-read":
+        # one weight for all points, assigned after the weighted grid (with other weights) was looked at
+        g.weight = [0.5 + 0.25 * ((5 * i) % 13) for i in range(count)]
+        _ = g.grid
+        g.weight = 1.5
+        w = [1.5] * count
+    elif mode == "scalar":
         g.weight = 2.5
         w = [2.5] * count
     elif mode == "vector":
